@@ -12,6 +12,7 @@ CONSTANTS
   MaxPush = 3
   Faults = {}
   RespShapes <- RS_sub1
+  Abandon = FALSE
   MaxArr = 2
   ArrMenu = {"notif", "close"}
 INIT Init
